@@ -1,7 +1,9 @@
 """Variants for the writer properties C05-C07."""
 W = "bibtexparser/writer.py"
 VARIANTS = [
-    ("revert-D23-warning-comment-format-crash", "C06", "bibtexparser/writer.py", "    try:\n        parsing_failed_comment = bibtex_format.parsing_failed_comment.format(n=lines)\n    except (KeyError, IndexError, ValueError):\n        # Not a template with (only) the `{n}` placeholder, e.g. a text with other braces: use it as it is.\n        parsing_failed_comment = bibtex_format.parsing_failed_comment\n", "    parsing_failed_comment = bibtex_format.parsing_failed_comment.format(n=lines)\n", "fire"),
+    ("revert-D23-warning-comment-format-crash", "C06", "bibtexparser/writer.py", "    try:\n        parsing_failed_comment = bibtex_format.parsing_failed_comment.format(n=lines)\n    except (KeyError, IndexError, ValueError, AttributeError, TypeError):\n        # Not a template with (only) the `{n}` placeholder, e.g. a text with other braces\n        # (or with `{n.x}` / `{n[0]}`, which an int cannot serve): use it as it is.\n        parsing_failed_comment = bibtex_format.parsing_failed_comment\n", "    parsing_failed_comment = bibtex_format.parsing_failed_comment.format(n=lines)\n", "fire"),
+    ("revert-D27-warning-comment-attribute-template", "C06", "bibtexparser/writer.py", "    except (KeyError, IndexError, ValueError, AttributeError, TypeError):\n", "    except (KeyError, IndexError, ValueError):\n", "fire"),
+    ("benign-warning-comment-catch-lookup-error", "C06", "bibtexparser/writer.py", "    except (KeyError, IndexError, ValueError, AttributeError, TypeError):\n", "    except (LookupError, ValueError, AttributeError, TypeError):\n", "silent"),
     ("writer-comma-off-by-one", "C06", W, "if bibtex_format.trailing_comma or i < len(block.fields) - 1:", "if bibtex_format.trailing_comma or i < len(block.fields):", "fire"),
     ("writer-comma-and", "C06", W, "if bibtex_format.trailing_comma or i < len(block.fields) - 1:", "if bibtex_format.trailing_comma and i < len(block.fields) - 1:", "fire"),
     ("writer-pad-ignores-sep", "C06", W, "length = bibtex_format.value_column - len(key) - len(VAL_SEP)", "length = bibtex_format.value_column - len(key)", "fire"),
